@@ -971,7 +971,13 @@ fn scanstorm_main(o: &Opts) -> i32 {
     let (nw, ns): (usize, usize) = (o.num("writers", 3), o.num("scanners", 5));
     crate::util::watchdog::start(o.num("watchdog", 60));
     let store = Arc::new(FeoxStore::builder().hash_bits(4).enable_ttl(false).no_memory_limit().build().expect("store"));
-    let keys: Vec<Vec<u8>> = (0..nkeys).map(|i| format!("scan-key-{i:04}").into_bytes()).collect();
+    // --klen: long keys that differ only in their LAST bytes (every comparison of a scan walks the whole key: the
+    // window between taking an index node and reading its slot is as wide as a comparison)
+    let klen: usize = o.num("klen", 0);
+    let keys: Vec<Vec<u8>> = (0..nkeys).map(|i| {
+        if klen > 20 { let mut k = b"scan-key-".to_vec(); k.resize(klen - 4, b'_'); k.extend_from_slice(format!("{i:04}").as_bytes()); k }
+        else { format!("scan-key-{i:04}").into_bytes() }
+    }).collect();
     for k in &keys { store.insert(k, &[k.as_slice(), b"|0"].concat()).unwrap(); }
     feoxdb::verif::sched::set_random_stall(o.num("stallmask", 63), o.num("stallus", 3000));
     feoxdb::verif::sched::set_random_yield(0, seed | 1);
@@ -990,11 +996,28 @@ fn scanstorm_main(o: &Opts) -> i32 {
             }
         }));
     }
+    // --deleters: threads that REMOVE keys from both indexes and create them again (removal against the scans' cursor)
+    for d in 0..o.num("deleters", 0usize) {
+        let (st, sp, ks, up) = (store.clone(), stop.clone(), keys.clone(), updates.clone());
+        hs.push(std::thread::spawn(move || {
+            let mut n = d as u64;
+            while !sp.load(Ordering::Relaxed) {
+                let k = &ks[(n as usize * 5 + d) % ks.len()];
+                let _ = st.delete(k);
+                let _ = st.insert(k, &[k.as_slice(), format!("|d{n}").as_bytes()].concat());
+                n += 1;
+                up.fetch_add(1, Ordering::Relaxed);
+            }
+        }));
+    }
+    let (lo, hi): (Vec<u8>, Vec<u8>) = if klen > 20 { (keys[0].clone(), { let mut h = keys[nkeys - 1].clone(); *h.last_mut().unwrap() = b'~'; h }) }
+                                       else { (b"scan-key-".to_vec(), b"scan-key-~".to_vec()) };
     for _ in 0..ns {
+        let (lo, hi) = (lo.clone(), hi.clone());
         let (st, sp, sc, fo) = (store.clone(), stop.clone(), scans.clone(), foreign.clone());
         hs.push(std::thread::spawn(move || {
             while !sp.load(Ordering::Relaxed) {
-                if let Ok(items) = st.range_query(b"scan-key-", b"scan-key-~", 1000) {
+                if let Ok(items) = st.range_query(&lo, &hi, 1000) {
                     for (k, v) in items { if !v.starts_with(&k) { fo.fetch_add(1, Ordering::Relaxed); } }
                 }
                 sc.fetch_add(1, Ordering::Relaxed);
